@@ -509,4 +509,30 @@ Proof.
     intros a b c Hab Hbc. cbn in *. lra.
 Qed.
 
+(** ** identical teams, no rank values (finishing order = input order, no ties) *)
+Lemma none_trs_nodup tau (teams : list (list (rating R))) :
+  NoDup (map t_rank (team_ratings (map (map (inflate tau)) teams) (seq 0 (length teams)))).
+Proof.
+  replace (map t_rank (team_ratings (map (map (inflate tau)) teams) (seq 0 (length teams)))) with (seq 0 (length teams));
+    [apply seq_NoDup|].
+  unfold team_ratings. rewrite map_map. cbn [t_rank team_rating].
+  rewrite <- (map_map snd (fun x => x)), map_id. symmetry. apply combine_map_snd. now rewrite !map_length, seq_length.
+Qed.
+
+Lemma rate_identical_none k P tau limit (teams : list (list (rating R))) i j t resi resj :
+  gf_if_tm Phi Phiinv k -> full_kind k -> 0 < p_kappa P -> valid_game tau teams ->
+  (i < j)%nat -> nth_error teams i = Some t -> nth_error teams j = Some t ->
+  nth_error (rate_core k P tau limit teams None) i = Some resi ->
+  nth_error (rate_core k P tau limit teams None) j = Some resj ->
+  Forall2 (fun pj pi => r_mu pj <= r_mu pi) resj resi.
+Proof.
+  intros G Hk Hkap V Hij Eti Etj Eri Erj.
+  destruct (rate_none_nth k P tau limit teams i t resi Eti Eri) as [ri0 [Ei0 [Etri Hmui]]].
+  destruct (rate_none_nth k P tau limit teams j t resj Etj Erj) as [rj0 [Ej0 [Etrj Hmuj]]].
+  pose proof (identical_ordered Phi Phiinv k P _ i _ j _ ri0 rj0 G Hk (none_trs_nodup tau teams)
+                (none_trs_ss tau teams _ (seq_length _ _) V) Hkap Etri Etrj) as H.
+  cbn [t_mu t_ss t_team t_rank team_rating] in H.
+  eapply (Forall2_mu_rel Rle); [|exact Hmuj|exact Hmui]. apply H; auto.
+Qed.
+
 End C05Rate.
